@@ -85,6 +85,11 @@ class InjectedFault(Exception):
     """Raised by the faulting user tokens below."""
 
 
+class InjectedAbort(BaseException):
+    """Like KeyboardInterrupt/SystemExit: not an Exception subclass. Raised synchronously by user tokens, so it strikes only
+    where a token callback runs (this is NOT asynchronous injection at arbitrary instructions, see DESIGN 4.3)."""
+
+
 BLOCK_TRIGGER = 'FAULTLINE'
 SPAN_TRIGGER = 'FAULTSPAN'
 RENDER_SPAN_TRIGGER = 'RENDERFAULT'
@@ -203,6 +208,26 @@ class FaultBlockInterrupt(BlockToken):
         return False
 
 
+class FaultBlockReadAbort(BlockToken):
+    @staticmethod
+    def start(line):
+        return BLOCK_TRIGGER in line
+
+    @staticmethod
+    def read(lines):
+        next(lines)
+        raise InjectedAbort('block.read')
+
+
+class FaultSpanInitAbort(SpanToken):
+    pattern = re.compile('(' + SPAN_TRIGGER + ')')
+    parse_inner = False
+    precedence = 6
+
+    def __init__(self, match):
+        raise InjectedAbort('span.init')
+
+
 class FaultSpanFind(SpanToken):
     @classmethod
     def find(cls, string):
@@ -284,12 +309,13 @@ TOKENS = {
     'CalloutHeading': CalloutHeading, 'DashStrike': DashStrike, 'CurlyTwin': _CurlyTwin, 'Curly': Curly, 'CurlyRaw': CurlyRaw, 'CurlyLow': CurlyLow, 'Bang': Bang, 'BangInterrupt': BangInterrupt,
     'FaultBlockStart': FaultBlockStart, 'FaultBlockRead': FaultBlockRead, 'FaultBlockInit': FaultBlockInit,
     'FaultBlockInterrupt': FaultBlockInterrupt, 'FaultSpanFind': FaultSpanFind, 'FaultSpanInit': FaultSpanInit,
+    'FaultBlockReadAbort': FaultBlockReadAbort, 'FaultSpanInitAbort': FaultSpanInitAbort,
     'RenderFaultSpan': RenderFaultSpan, 'RenderFaultBlock': RenderFaultBlock,
 }
 BENIGN_SPAN = ['Curly', 'CurlyRaw', 'CurlyLow', 'CurlyTwin', 'DashStrike']
 BENIGN_BLOCK = ['Bang', 'BangInterrupt', 'CalloutHeading']
-FAULT_BLOCK = ['FaultBlockStart', 'FaultBlockRead', 'FaultBlockInit', 'FaultBlockInterrupt']
-FAULT_SPAN = ['FaultSpanFind', 'FaultSpanInit']
+FAULT_BLOCK = ['FaultBlockStart', 'FaultBlockRead', 'FaultBlockInit', 'FaultBlockInterrupt', 'FaultBlockReadAbort']
+FAULT_SPAN = ['FaultSpanFind', 'FaultSpanInit', 'FaultSpanInitAbort']
 FAULT_RENDER = ['RenderFaultSpan', 'RenderFaultBlock']
 
 
@@ -407,14 +433,14 @@ def _outcome(fn, reclimit=None):
     if reclimit is None:
         try:
             return ('ok', fn())
-        except Exception as e:
+        except (Exception, InjectedAbort) as e:
             return core.norm_exc(e)
     old = sys.getrecursionlimit()
     sys.setrecursionlimit(core.stack_depth() + int(reclimit))
     try:
         try:
             return ('ok', fn())
-        except Exception as e:
+        except (Exception, InjectedAbort) as e:
             return core.norm_exc(e)
     finally:
         sys.setrecursionlimit(old)
@@ -509,7 +535,7 @@ def _exec_ctx(bi, block, emit):
                             d = mistletoe.Document(step['doc'])
                             phase[0] = 'render'
                             return r.render(d)
-                        except Exception as e:
+                        except (Exception, InjectedAbort) as e:
                             caught.append(e)
                             raise
                     out = _outcome(do, step.get('reclimit'))
@@ -535,7 +561,7 @@ def _exec_ctx(bi, block, emit):
                     raise core.HarnessError('unknown step kind %r' % (sk,))
     except core.HarnessError:
         raise
-    except Exception as e:
+    except (Exception, InjectedAbort) as e:
         if not (unwinding and e is unwinding[0]):
             # leaving the with-block raised something of its own (an __exit__ that fails): an observation like any other
             fp = fingerprint()
